@@ -59,6 +59,9 @@ type params struct {
 	FailMode string `json:"fail_mode"`
 	// SlowMs is the simulated duration of every command of a tool, in ms
 	SlowMs map[string]int `json:"slow_ms,omitempty"`
+	// Chatty tools print notices on their standard error in every command,
+	// whether it succeeds or not (npm notices, deprecation warnings)
+	Chatty map[string]bool `json:"chatty,omitempty"`
 }
 
 type c20 struct{}
@@ -139,6 +142,24 @@ func (c20) Generate(env *kernel.Env, r *kernel.Rand, index int) any {
 			k++
 		}
 		p.Callers = append(p.Callers, reqs)
+	}
+	p.Chatty = map[string]bool{}
+	for _, t := range toolNames {
+		if r.Chance(1, 4) {
+			p.Chatty[t] = true
+		}
+	}
+	// a second batch: some requests name a file that was already submitted,
+	// with the same generated content (every request is formatted again)
+	if p.Entry == "formatfile" && r.Chance(1, 3) {
+		var all []request
+		for _, c := range p.Callers {
+			all = append(all, c...)
+		}
+		for i := r.Range(1, 2); i > 0; i-- {
+			ci := r.Intn(len(p.Callers))
+			p.Callers[ci] = append(p.Callers[ci], kernel.Pick(r, all))
+		}
 	}
 	return p
 }
@@ -280,6 +301,13 @@ func (w *world) exec(name string, args []string, dir string) ([]byte, error) {
 	}
 	if kind == "run" {
 		w.formatted[file]++
+		for _, a := range args {
+			if filepath.Base(a) == file && filepath.IsAbs(a) {
+				if code, err := os.ReadFile(a); err == nil {
+					os.WriteFile(a, append([]byte("// formatted by "+tool+"\n"), code...), 0o644)
+				}
+			}
+		}
 	}
 	return nil, nil
 }
@@ -329,7 +357,16 @@ func (c20) Execute(env *kernel.Env, raw json.RawMessage, ch *kernel.Choices) *ke
 		tool, _, _ := w.classify(name, args)
 		return time.Duration(p.SlowMs[tool]) * time.Millisecond
 	}
-	defer func() { verifsim.ExecHook, verifsim.LookPathHook, verifsim.ExecDurationHook = nil, nil, nil }()
+	verifsim.ExecStderrHook = func(name string, args []string) []byte {
+		if tool, _, _ := w.classify(name, args); tool != "" && p.Chatty[tool] && p.World[tool] != missing {
+			out.Fault("tool_writes_on_stderr")
+			return []byte(tool + " notice: a new version is available\n")
+		}
+		return nil
+	}
+	defer func() {
+		verifsim.ExecHook, verifsim.LookPathHook, verifsim.ExecDurationHook, verifsim.ExecStderrHook = nil, nil, nil, nil
+	}()
 
 	var schedule strings.Builder
 	outDir := filepath.Join(env.Scratch, fmt.Sprintf("c20-out-%d", os.Getpid()))
@@ -365,13 +402,20 @@ func (c20) Execute(env *kernel.Env, raw json.RawMessage, ch *kernel.Choices) *ke
 	case "formatfile":
 		cache := &generator.Formatters{}
 		k := 0
+		os.MkdirAll(outDir, 0o755)
+		defer os.RemoveAll(outDir)
 		runErr = sim.Run(func() {
 			for _, reqs := range p.Callers {
 				mine := results[k : k+len(reqs)]
 				k += len(reqs)
 				verifsim.Go(func() {
 					for _, r := range mine {
-						err := cache.FormatFile(generator.Format(r.Req.Format), r.Req.File)
+						// like the command: write the generated code, then format the file
+						path := filepath.Join(outDir, r.Req.File)
+						if werr := os.WriteFile(path, []byte("generated code of "+r.Req.File+"\n"), 0o644); werr != nil {
+							kernel.Harnessf("scratch: %v", werr)
+						}
+						err := cache.FormatFile(generator.Format(r.Req.Format), path)
 						r.Returned = true
 						if err != nil {
 							r.HasErr, r.Err = true, err.Error()
@@ -446,6 +490,10 @@ func (c20) Execute(env *kernel.Env, raw json.RawMessage, ch *kernel.Choices) *ke
 
 	// (2) per request
 	expectFailureReported := false
+	nreq := map[string]int{}
+	for _, r := range results {
+		nreq[r.Req.File]++
+	}
 	for _, r := range results {
 		t := toolFor(r.Req.Format)
 		runsRight, runsAny := 0, 0
@@ -484,8 +532,11 @@ func (c20) Execute(env *kernel.Env, raw json.RawMessage, ch *kernel.Choices) *ke
 			}
 			out.Probe("absent_ok")
 		default:
-			if runsRight != 1 || runsAny != 1 {
-				return viol("formatter_not_run_exactly_once", "request %v: tool %s is %s: %d run(s) by it, %d by any tool", r.Req, t, p.World[t], runsRight, runsAny)
+			if want := nreq[r.Req.File]; runsRight != want || runsAny != want {
+				return viol("formatter_not_run_exactly_once", "request %v (file submitted %d time(s)): tool %s is %s: %d run(s) by it, %d by any tool", r.Req, want, t, p.World[t], runsRight, runsAny)
+			}
+			if nreq[r.Req.File] > 1 {
+				out.Probe("same_file_submitted_again")
 			}
 			if p.World[t] == runFails {
 				expectFailureReported = true
@@ -577,6 +628,18 @@ func (c20) Shrink(raw json.RawMessage) []json.RawMessage {
 		q := p
 		q.Which = true
 		out = append(out, kernel.MustJSON(q))
+	}
+	for _, t := range ts {
+		if p.Chatty[t] {
+			q := p
+			q.Chatty = map[string]bool{}
+			for k, v := range p.Chatty {
+				if k != t {
+					q.Chatty[k] = v
+				}
+			}
+			out = append(out, kernel.MustJSON(q))
+		}
 	}
 	if p.SwitchDen < 6 {
 		q := p
